@@ -385,6 +385,69 @@ func genHub(c *ctx) *leanFile {
 		remoteOk = closedFirst && nonBlocking
 	}
 	l.boolean("proxiedSendRefusesWhenClosed", remoteOk, fdRemote != nil, "remoteGrpcClient.SendMessage not found")
+
+	// "the same call" (the gate of requestoffer, whose answer is delivered as a message of the other session) means
+	// the same room OF THE SAME BACKEND: isInSameCall refuses unless Room.IsEqual holds for the two rooms, and
+	// Room.IsEqual compares the room ids and the backend ids
+	squash := func(n ast.Node) string { return strings.Join(strings.Fields(nodeText(c, n)), "") }
+	fdSame := findFunc(hub, "Hub", "isInSameCall")
+	sameOk := false
+	if fdSame != nil && fdSame.Body != nil {
+		guarded, byId := false, false
+		ast.Inspect(fdSame.Body, func(nd ast.Node) bool {
+			switch x := nd.(type) {
+			case *ast.IfStmt:
+				t := squash(x.Cond)
+				if (strings.Contains(t, "||!senderRoom.IsEqual(recipientRoom)") || strings.Contains(t, "||!recipientRoom.IsEqual(senderRoom)")) &&
+					strings.HasPrefix(t, "recipientRoom==nil||") && len(x.Body.List) == 1 {
+					if ret, ok := x.Body.List[0].(*ast.ReturnStmt); ok && len(ret.Results) == 1 && isIdent(ret.Results[0], "false") {
+						guarded = true
+					}
+				}
+			case *ast.BinaryExpr:
+				t := squash(x)
+				if strings.Contains(t, "Room.Id()") && (x.Op == token.EQL || x.Op == token.NEQ) {
+					byId = true
+				}
+			}
+			return true
+		})
+		// the guard is the last statement before the final `return true`
+		n := len(fdSame.Body.List)
+		lastIsGuard := false
+		if n >= 2 {
+			if ifs, ok := fdSame.Body.List[n-2].(*ast.IfStmt); ok && strings.Contains(squash(ifs.Cond), "IsEqual(") {
+				if ret, ok := fdSame.Body.List[n-1].(*ast.ReturnStmt); ok && len(ret.Results) == 1 && isIdent(ret.Results[0], "true") {
+					lastIsGuard = true
+				}
+			}
+		}
+		sameOk = guarded && !byId && lastIsGuard
+	}
+	fdEq := findFunc(room, "Room", "IsEqual")
+	eqOk := false
+	if fdEq != nil && fdEq.Body != nil && len(fdEq.Body.List) > 0 {
+		idsCompared, backends := false, 0
+		ast.Inspect(fdEq.Body, func(nd ast.Node) bool {
+			switch x := nd.(type) {
+			case *ast.IfStmt:
+				if squash(x.Cond) == "r.Id()!=other.Id()" && len(x.Body.List) == 1 {
+					if ret, ok := x.Body.List[0].(*ast.ReturnStmt); ok && len(ret.Results) == 1 && isIdent(ret.Results[0], "false") {
+						idsCompared = true
+					}
+				}
+			case *ast.AssignStmt:
+				t := squash(x)
+				if t == "b1:=r.Backend()" || t == "b2:=other.Backend()" {
+					backends++
+				}
+			}
+			return true
+		})
+		last, ok := fdEq.Body.List[len(fdEq.Body.List)-1].(*ast.ReturnStmt)
+		eqOk = idsCompared && backends == 2 && ok && len(last.Results) == 1 && squash(last.Results[0]) == "b1.Id()==b2.Id()"
+	}
+	l.boolean("sameCallIsPerBackend", sameOk && eqOk, fdSame != nil && fdEq != nil, "Hub.isInSameCall / Room.IsEqual not found")
 	return l
 }
 
